@@ -6,7 +6,7 @@ open DEngine DEngine.Proto DEngine.BufLog
 /-! Line-protocol driver of the `buflog` family (see harness/src/bin/buflog.rs for the case language). -/
 
 def runModel (c : Case) : String × List String :=
-  let s0 : Sys := { keepBoundary := c.sim, file := if c.sim then none else some {} }
+  let s0 : Sys := { keepBoundary := true, file := if c.sim || c.rocks then none else some {} }
   let rec go (s : Sys) (ops : List Op) (acc : List String) (tags : List String) (fuel : Nat) : Option (List String × List String) :=
     match fuel, ops with
     | 0, _ => some (acc.reverse, tags.reverse)
